@@ -31,7 +31,7 @@ def algebra(ctx, tmp):
     every operation (weights kept, two different maskings refused, aggregates of the result see observed entries only, operands
     untouched).  The values at observed entries (plain arithmetic, not a missing-data matter) are a conformance note."""
     res, cs = cases.enumerate_cases("MC_WTAlgebra", "MC_WTAlgebra.cfg", tmp, "alg")
-    ctx.add_tlc("WTAlgebra: 17 operators x 5 operand kinds x maskings (design)", res)
+    ctx.add_tlc("WTAlgebra: 17 operators x 7 operand kinds (broadcasting ones included) x maskings (design)", res)
     if res.violated:
         ctx.violation({"check": "design", "invariant": res.violated[0]}, f"WTAlgebra.tla violates {res.violated}", replay=res.trace_text[:3000])
     recs = [mk.run_algebra_case(c) for c in cs]
@@ -60,7 +60,7 @@ def run(ctx):
                 "every pair of twins agreeing on the observed entries and every sentinel (NaN, inf, huge) at masked entries; every "
                 "vector (3 entries, all masks, sentinels at masked entries, bool / int / float weights) is run through the real "
                 "WeightedTensor operations and compared by TLC with the algebra (MaskingTrace.tla); WTAlgebra.tla: 17 operators (reflected "
-                "ones, comparisons, negation, absolute value, square) x 5 operand kinds x every masking on real WeightedTensor objects - the "
+                "ones, comparisons, negation, absolute value, square) x 7 operand kinds (broadcasting ones included) x every masking on real WeightedTensor objects - the "
                 "masking is carried by every operation, two different maskings are refused, aggregates of the result see observed entries "
                 "only (WTAlgebraTrace.tla); twin-dataset scenarios on real "
                 "models (masked values and padded times overwritten by 7.5 / 1e30 / NaN / inf, 0-2 extra padded visits, 25 % missing "
